@@ -571,6 +571,7 @@ func propC05(c *Ctx) {
 	c.ruleValidatorsComplete()
 	c.ruleUpdateKeepsEntry()
 	c.ruleResponseCodeGate("C05-RESPONSE-CODE-GATE")
+	c.ruleJsightFirst() // the catalog's jsight version is only ever set by a JSIGHT directive, which must be there and first
 }
 
 // ruleUpdateKeepsEntry: an entry of a catalog collection accumulates its cross-references (a tag its interaction
